@@ -278,25 +278,34 @@ def run_writer(case):
     kept = []
 
     class SpyColumn:
-        def append(self, protein_group_results, post_err_prob_cutoff):
-            seen.append(post_err_prob_cutoff)
+        def append(self, *a, **k):  # the columns' interface: append(protein_group_results, post_err_prob_cutoff), any convention
+            protein_group_results = k["protein_group_results"] if "protein_group_results" in k else a[0]
+            seen.append(k["post_err_prob_cutoff"] if "post_err_prob_cutoff" in k else a[-1])
             kept.extend(int(q.evidence_id) for pgr in protein_group_results for q in pgr.precursorQuants)
 
     class SpyWriter(writers.ProteinGroupsWriter):
         def get_columns(self):
             return [SpyColumn()]
 
-    orig_retain = wbase._retain_only_identified_precursors
+    # private helper: wrapped if it exists, for any calling convention (audit 3, X1); the column sees the cutoff in any case
+    orig_retain = getattr(wbase, "_retain_only_identified_precursors", None)
 
-    def spy_retain(precursor_list, post_err_prob_cutoff, *a, **kw):
-        seen.append(post_err_prob_cutoff)
-        return orig_retain(precursor_list, post_err_prob_cutoff, *a, **kw)
+    def spy_retain(*a, **kw):
+        vals = _cl.bound_values(orig_retain, a, kw, 2)
+        try:
+            float(vals[1])
+            seen.append(vals[1])
+        except Exception:  # noqa: BLE001 - not readable: not observed here
+            pass
+        return orig_retain(*a, **kw)
 
-    wbase._retain_only_identified_precursors = spy_retain
+    if orig_retain is not None:
+        wbase._retain_only_identified_precursors = spy_retain
     try:
         writers.finalize_output(results, SpyWriter(), post_err_probs, "", dec(case["level"]), False, None)
     finally:
-        wbase._retain_only_identified_precursors = orig_retain
+        if orig_retain is not None:
+            wbase._retain_only_identified_precursors = orig_retain
     if not seen:
         return {"err": "column_not_called"}
     vals = []
@@ -502,7 +511,11 @@ class P(_WriterP):
             return _cl.quant_impl_view(case, impl_out)
         if k == "collect":
             return [_cl.collect_views(case["groups"], case["pil"], impl_out, None, unrat(case["level"]))[0]]
-        return [_cl.collect_views(c["groups"], c["pil"], c, None, unrat(c["level"]))[0] for c in impl_out.get("calls", [])]
+        views = [_cl.collect_views(c["groups"], c["pil"], c, None, unrat(c["level"]))[0] for c in impl_out.get("calls", [])]
+        if impl_out.get("unseen_calls"):
+            # collect calls whose arguments the wrapper could not read: "not observed", a matter of the correspondence
+            views.append({"collect_calls_not_observed": impl_out["unseen_calls"]})
+        return views
 
     def oracle(self, case, impl_out):
         k = self._k(case)
@@ -514,7 +527,10 @@ class P(_WriterP):
             return _cl.quant_oracle(case, impl_out)
         if k == "collect":
             o = _cl.collect_oracle(impl_out, unrat(case["level"]), "%s%s (%s): " % (case["desc"], " razor" if case["razor"] else "", case["via"]))
-            if o is None and "err" not in impl_out and impl_out["flags"] != ["with_shared" in case["desc"], bool(case["razor"])]:
+            # the check's reading of "the callers' list" (notes/C17.md, extension sentence): shared peptides contribute iff the
+            # score type says with_shared / razor.  A flag that cannot be read (None) is not judged.
+            want_flags = ["with_shared" in case["desc"], bool(case["razor"])]
+            if o is None and "err" not in impl_out and any(g is not None and g != w for g, w in zip(impl_out["flags"], want_flags)):
                 return "strategy flags (use_shared_peptides, use_razor) = %r for score type %r" % (impl_out["flags"], case["desc"])
             return o
         for i, c in enumerate(impl_out.get("calls", [])):
